@@ -1,8 +1,8 @@
 #!/usr/bin/env python3
-# prints the markdown rows of DESIGN.md A.7 for the seeds of rounds C, D, E (letters C..H) from seeded/*/meta.json
+# prints the markdown rows of DESIGN.md A.7 for the seeds of rounds C-F (letters C..L) from seeded/*/meta.json
 import json, glob
 rows = []
-for d in sorted(glob.glob('/verif/seeded/C??-[C-H]')):
+for d in sorted(glob.glob('/verif/seeded/C??-[C-L]')):
     m = json.load(open(d + '/meta.json'))
     det = m['detected']
     kind = 'at first' if det.startswith('caught') else ('pre-strengthened' if det.startswith('strengthened') else 'after')
